@@ -20,6 +20,7 @@ _q = ["count2", "scan2", "nested", "monitor1", "fly1", "cleanup", "clearcp", "su
 SPECS = {
     "quick": [spec(k, bound=1, faults=F) for k in _q] + [spec(k, bound=1, faults=F, a=1) for k in ("scan2", "cleanup", "bare", "fly1")]
     + [spec(k, bound=1, faults=F, ri=1) for k in ("tiny", "nested", "planpause")]
+    + [spec("tiny", bound=2, faults=F)]  # every pair of deviations on the smallest run
     # a document consumer that raises on the i-th document (ignore_callback_exceptions=False, the default), every i
     + [spec(k, [], bound=0, cbfail=i, ri=ri) for k, n in CBFAIL for ri in (0, 1) for i in range(n + ri * 2)],
     "thorough": [spec(k, bound=1, faults=F) for k in _q]
